@@ -21,7 +21,7 @@ SPEC = {
             "totality on every string over {'a',' ','\\t','\"','\\'','\\\\','\\0'} up to 6/8 and token equality with shlex.split on the "
             "unambiguous shell subset (every subset string over {'a','b',' ','\\t','\"','\\'','\\\\'} up to 6/7 + 6400/64000 "
             "grammar-generated command lines up to 4 KiB); 10^4/10^6 rounds of random strings over all 256 byte values up to 4 KiB "
-            "through every helper; string_printf/string_vprintf/wstring_printf producing every length 0..72/80 (both sides of 2*len(fmt)+16), "
+            "through every helper; split_context deep-nesting family: chains of 1..40 open brackets x 7 bracket-kind patterns (one kind, mixed, mixed with a quoted string innermost) x delimiters at every level or only outside x {balanced, extra opener, outermost/innermost/middle closer missing, stray closer} x max_splits {0,1,3}, random nestings up to depth 40(+40); join re-entrancy (c08-wide): items whose operator std::string() joins children and iterators computing join(split(row)) on dereference; string_printf/string_vprintf/wstring_printf producing every length 0..72/80 (both sides of 2*len(fmt)+16), "
             "both sides of 0x400, 0x800, 4 KiB, 64 KiB and 2^20 bytes / 2^18 (thorough 2^20) wide chars, each case once per stale errno "
             "value in {0,EILSEQ,ERANGE,EINVAL,ENOMEM} set immediately before the call; every other call into phosg is preceded by "
             "vf::poison_errno(); printf outputs with embedded NULs (%c/%lc with 0 at start, middle, end, several, only NULs) "
@@ -47,7 +47,9 @@ SPEC = {
         "wsplit:both-ends-delim:*", "split_context:leading-delim:*", "split_context:inner-delim:cap-binds",
         "split_context-rejected:*", "split_context-ambiguous:*",
         "join:deque:cstr:first-empty", "join:deque:cstr-empty:first-nonempty", "join:deque:cstr-long:no-items", "join:no-delimiter",
-        "join:vector:char:first-empty", "join:list:string:first-empty", "join-split:vector:nul-delimiter",
+        "join:vector:char:first-empty", "join:list:string:first-empty", "join-split:vector:nul-delimiter", "join:reentrant:item-conversion", "join:reentrant:iterator",
+        "split_context-deep:depth17:unbalanced:*", "split_context-deep:depth18-32:balanced:mixed", "split_context-deep:depth33-40:balanced:mixed+quote",
+        "split_context-deep:depth16:balanced:*", "split_context-deep:depth<=15:stray-closer:*",
         "strip_trailing_zeroes-wstring:all-zeroes", "comments-wstring:unterminated:newlines",
         "strip:all-whitespace", "strip:both-ends", "strip:trailing-nul", "skip:*:embedded-nul",
         "comments:closed:newlines", "comments:unterminated:newlines", "comments:unterminated:plain", "starts_with:*:true", "ends_with:affix-longer:false",
